@@ -21,7 +21,7 @@ META = dict(
         thorough="hydrogens on 4 heavy atoms; GML on 3 atoms with orders {0,1,1.5,2} and on 4 atoms (orders {0,1})",
     ),
     outside=["SMILES -> graph -> SMILES (MolToGraph, GraphToMol, sanitisation): RDKit", "gml_to_smart / rule strings to "
-             "SMARTS (RDKit)", "explicit_hydrogen=True GML export", "multi-letter elements and wildcard atoms in GML labels"],
+             "SMARTS (RDKit)", "explicit_hydrogen=True GML export for atoms that carry hydrogens (the flag itself is exercised on hydrogen-free atoms)", "multi-letter elements and wildcard atoms in GML labels"],
     stubs=["synkit.IO.chem_converter.rsmi_to_graph replaced by a function handing in the two symbolic graphs (RDKit parsing "
            "is outside); everything between that boundary and the GML text runs unchanged"],
     assumptions=["GML carries element, charge and bond orders only: equality / isomorphism is judged on those",
@@ -181,6 +181,12 @@ def h_gml(E, n, orders, charges1, chargesN, idpool):
         back_a = cc.gml_to_its(txt_a)
         ok = its_same(back_a, its) if not reindex else its_iso(back_a, its)
         E.check(NOT(ok), "full-rule-survives-its-gml-its", dict(info, reindex=reindex, gml=txt_a))
+    # explicit_hydrogen=True additionally writes the unchanged bonds into the context section (no hydrogen counts here, so
+    # no hydrogen atoms are added): same rule
+    for core, src, want in ((True, rc, rc), (False, its, its)):
+        txt_x = cc.its_to_gml(src, core=core, reindex=False, explicit_hydrogen=True)
+        back_x = cc.gml_to_its(txt_x)
+        E.check(NOT(its_same(back_x, want)), "rule-survives-export-with-explicit-hydrogen-flag", dict(info, core=core, gml=txt_x))
     # the documented second route: from the reaction string (parser stubbed at the RDKit boundary)
     orig = cc.rsmi_to_graph
     cc.rsmi_to_graph = lambda smart, sanitize=True, **kw: (G.copy(), H.copy())
